@@ -31,6 +31,7 @@ Definition spec_where (w : where_) (s : sstate) : sstate * list string * outcome
   | WBuiltin => (s, ["nf"], OErr KAttr attr_msg)
   | WCaptureFiber => (s_def GLeak (VClosure 41) s, [], OErr KRuntime (exc_msg 1))
   | WFiberWait => (s_def GFib VFiber s, [], OErr KRuntime (exc_msg 1))   (* the run is over: fw has finished *)
+  | WSetGlobal | WSetGlobalNested | WSetGlobalFiber => (s, [], OErr KName total_msg)   (* an assignment never declares *)
   end.
 
 (* loading a module that is not imported yet: what it prints, whether it completes, the loader calls *)
@@ -86,6 +87,7 @@ Definition spec_snippet (s : sstate) (sn : snip) : sstate * obs :=
       | Some VFiber => (s, sobs ["true"] OOk [])     (* a fiber of a run that is over has finished *)
       | _ => (s, sobs [] (OErr KName (name_error "fw")) [])
       end
+  | SnProbeTotal => (s, sobs [] (OErr KName total_msg) [])   (* no snippet can declare `total` *)
   | SnImport m =>
       if s_imported s m then
         (s_def (GMod m) (VMod m) s, sobs [mod_v m] OOk [])
@@ -118,7 +120,7 @@ Definition msg_table : list string :=
   (map (fun g => name_error (gname_s g)) [I0; I1] ++ map (fun f => name_error (fname_s f)) [I0; I1] ++
    map (fun c => name_error (cname_s c)) [I0; I1] ++ [name_error "c"; name_error "fw"] ++ map (fun m => name_error (mod_alias m)) all_mods ++
    map exc_msg [1; 2; 3; 4; 7; 9]%Z ++ map circular_msg all_mods ++ map missing_msg all_mods ++
-   [modcompile_msg; superclass_msg; attr_msg; syntax_msg; "Expected ClassDef."])%list.
+   [modcompile_msg; superclass_msg; attr_msg; syntax_msg; "Expected ClassDef."; total_msg])%list.
 Definition show_msg_table : string := show_sep "," hex_of_string msg_table.
 
 Fixpoint index_of (s : string) (l : list string) (i : nat) : option nat :=
